@@ -460,8 +460,8 @@ fn cr_check(slots: &[u32; 8]) {
 }
 
 //@ props: C03
-//@ tier: thorough
-//@ timeout: 1800
+//@ tier: quick
+//@ timeout: 1200
 //@ functions: hll::union::merge_coupons_into_gadget
 //@ functions: hll::union::merge_coupons_into_mode
 //@ functions: hll::container::Container::iter
